@@ -222,10 +222,13 @@ func InitRoutes(table table.Interface, config Config, meta toml.MetaData) error 
 			// Note: toml library allows arbitrary casing of properties,
 			// and the map keys are these properties as specified by user
 			// so we can't look up directly
+			// the same goes for the numeric options: an explicit 0 must not be mistaken for "not specified"
+			specified := make(map[string]bool)
 			for _, routemeta := range routeMeta {
 				for k, v := range routemeta {
 					if strings.ToLower(k) == "key" && v == routeConfig.Key {
 						for k2, v2 := range routemeta {
+							specified[strings.ToLower(k2)] = true
 							if strings.ToLower(k2) == "sslverify" {
 								cfg.SSLVerify = v2.(bool)
 							}
@@ -240,28 +243,31 @@ func InitRoutes(table table.Interface, config Config, meta toml.MetaData) error 
 				}
 			}
 
-			if routeConfig.BufSize != 0 {
+			if routeConfig.BufSize != 0 || specified["bufsize"] {
 				cfg.BufSize = routeConfig.BufSize
 			}
-			if routeConfig.FlushMaxNum != 0 {
+			if routeConfig.FlushMaxNum != 0 || specified["flushmaxnum"] {
 				cfg.FlushMaxNum = routeConfig.FlushMaxNum
 			}
-			if routeConfig.FlushMaxWait != 0 {
+			if routeConfig.FlushMaxWait != 0 || specified["flushmaxwait"] {
 				cfg.FlushMaxWait = time.Duration(routeConfig.FlushMaxWait) * time.Millisecond
 			}
-			if routeConfig.Timeout != 0 {
+			if routeConfig.Timeout != 0 || specified["timeout"] {
 				cfg.Timeout = time.Millisecond * time.Duration(routeConfig.Timeout)
 			}
-			if routeConfig.Concurrency != 0 {
+			if routeConfig.Concurrency != 0 || specified["concurrency"] {
 				cfg.Concurrency = routeConfig.Concurrency
 			}
-			if routeConfig.OrgId != 0 {
+			if routeConfig.OrgId != 0 || specified["orgid"] {
+				if routeConfig.OrgId < 1 {
+					return fmt.Errorf("error adding route '%s': orgId must be a number > 0", routeConfig.Key)
+				}
 				cfg.OrgID = routeConfig.OrgId
 			}
-			if routeConfig.ErrBackoffMin != 0 {
+			if routeConfig.ErrBackoffMin != 0 || specified["errbackoffmin"] {
 				cfg.ErrBackoffMin = time.Millisecond * time.Duration(routeConfig.ErrBackoffMin)
 			}
-			if routeConfig.ErrBackoffFactor != 0 {
+			if routeConfig.ErrBackoffFactor != 0 || specified["errbackofffactor"] {
 				cfg.ErrBackoffFactor = routeConfig.ErrBackoffFactor
 			}
 
